@@ -9,8 +9,11 @@ V = "/verif"
 def sh(*a, **k): return subprocess.run(a, text=True, capture_output=True, **k)
 # 1. cherry-pick lal commits
 commits = sh("git", "-C", "/repo", "log", "--reverse", "--format=%H %s", f"main..w-{name}").stdout.strip().splitlines()
+have = set(sh("git", "-C", "/repo", "log", "--format=%s", "main").stdout.splitlines())
 for c in commits:
     h, _, subj = c.partition(" ")
+    if subj in have:
+        print("already on main:", h[:7], subj); continue
     r = sh("git", "-C", "/repo", "cherry-pick", h)
     print("cherry-pick", h[:7], subj, "->", "ok" if r.returncode == 0 else "FAILED " + r.stderr[-300:])
     if r.returncode != 0:
